@@ -364,7 +364,16 @@ def _scan_rules(repo: Repo, L: Ledger):
     for n in walk_shallow(cb.node):
         if isinstance(n, ast.Call) and isinstance(n.func, ast.Attribute) and n.func.attr in ("append", "add") and isinstance(n.func.value, ast.Name):
             rec_names.add(n.func.value.id)
-    ok_ret = bool(rets) and all(({x.id for x in ast.walk(r.value) if isinstance(x, ast.Name)} & rec_names) for r in rets)
+    def _ret_ok(r):
+        if {x.id for x in ast.walk(r.value) if isinstance(x, ast.Name)} & rec_names:
+            return True
+        # `return None` is fine when it is the branch taken for an empty record list
+        if isinstance(r.value, ast.Constant) and r.value.value is None:
+            par = getattr(r, "_parent", None)
+            return isinstance(par, ast.If) and bool({x.id for x in ast.walk(par.test) if isinstance(x, ast.Name)} & rec_names)
+        return False
+
+    ok_ret = bool(rets) and all(_ret_ok(r) for r in rets) and any({x.id for x in ast.walk(r.value) if isinstance(x, ast.Name)} & rec_names for r in rets)
     L.check(ok_ret, "R4", f"{finder.short}:return", "returns the recorded list", "find_overlapping_fragments does not return the recorded pairs", finder.loc())
 
     # R5: reporter
